@@ -168,13 +168,14 @@ pub fn exec(case: &Value) -> Vec<Value> {
 
 pub fn gen(seed: u64, n: usize) -> Vec<Value> {
     let mut rng = ChaCha8Rng::seed_from_u64(seed);
-    let pool = ["a", "b", " ", "ä", "e\u{0301}", "€", "😀", "🇩🇪", "<p>", "<", "\r\n", "字"];
+    // "<pad>": the text itself contains the pad token (its id then also occurs inside an item, not only as padding)
+    let pool = ["a", "b", " ", "ä", "e\u{0301}", "€", "😀", "🇩🇪", "<p>", "<", "\r\n", "字", "<pad>", "<e>"];
     (0..n)
         .map(|_| {
             let k = rng.random_range(1..=4);
             // one batch in six is pure ASCII with CR LF, one in eighty has a text of several hundred tokens (lengths and
             // group counts that do not fit into 8 bits) next to short ones
-            let ascii = ["a", "b", " ", "\r\n", "\r\n", "\n", "<", "<p>"];
+            let ascii = ["a", "b", " ", "\r\n", "\r\n", "\n", "<", "<p>", "<pad>"];
             let pure = rng.random_bool(0.17);
             let mut texts: Vec<String> = (0..k).map(|_| (0..rng.random_range(0..=8)).map(|_| if pure { ascii[rng.random_range(0..ascii.len())] } else { pool[rng.random_range(0..pool.len())] }).collect()).collect();
             if rng.random_bool(0.012) {
